@@ -75,6 +75,54 @@ impl Ctx {
                 )
                 .unwrap();
         }
+        // twin request (6th element 1): a second resource with the same text and the same known
+        // selections (so their handle numbers coincide); every reference is taken in both resources
+        // and the search goes through the iterator adaptor TextSelectionIterator::related_text,
+        // which gathers the results of all references; a result of the twin shows as 1000 + handle
+        if req.list().len() > 5 && req.nth(5).int() == 1 {
+            let mut store = store.with_resource(TextResourceBuilder::new().with_id("r2").with_text(text.clone())).unwrap();
+            for (bb, ee) in &known {
+                store
+                    .annotate(
+                        AnnotationBuilder::new()
+                            .with_target(SelectorBuilder::textselector("r2", Offset::simple(*bb, *ee)))
+                            .with_data("s", "k", "v"),
+                    )
+                    .unwrap();
+            }
+            let r1 = store.resource("r").unwrap();
+            let r2 = store.resource("r2").unwrap();
+            let mut refsx = vec![b(false)];
+            let mut all: Vec<ResultTextSelection> = Vec::new();
+            for (bb, ee) in &refs {
+                let t = r1.textselection(&Offset::simple(*bb, *ee)).unwrap();
+                refsx.push(l(vec![onat(t.handle().map(|h| h.as_usize())), a(t.begin() as i64), a(t.end() as i64)]));
+                all.push(t);
+                all.push(r2.textselection(&Offset::simple(*bb, *ee)).unwrap());
+            }
+            let mut results = Vec::new();
+            for c in &codes {
+                let op = op_of_code(*c);
+                let refs2 = all.clone();
+                let r = guard(|| {
+                    let mut v: Vec<usize> = refs2
+                        .into_iter()
+                        .related_text(op)
+                        .map(|x| x.handle().map(|h| h.as_usize()).unwrap_or(9999) + if x.resource().handle() == r2.handle() { 1000 } else { 0 })
+                        .collect();
+                    v.sort();
+                    v
+                });
+                results.push(match r {
+                    Some(v) => l(v.into_iter().map(|x| a(x as i64)).collect()),
+                    None => l(vec![a(-1)]),
+                });
+            }
+            let ws = l(text.chars().map(|c| b(c.is_whitespace())).collect());
+            let input = l(vec![a(len as i64), ws, req.nth(2).clone(), l(refsx), req.nth(4).clone(), a(1)]);
+            let nt = results.iter().any(|r| !r.list().is_empty());
+            return (input, results, nt);
+        }
         let res = store.resource("r").unwrap();
         let reftss: Vec<ResultTextSelection> = refs.iter().map(|(bb, ee)| res.textselection(&Offset::simple(*bb, *ee)).unwrap()).collect();
         let mut refsx = vec![b(sorted)];
@@ -214,11 +262,15 @@ pub fn generate(out: &mut Out, tier: &str, seed: u64) {
                 refs.push(t);
             }
         }
+        if rng.chance(1, 5) {
+            // the same references through the iterator adaptor, over two resources with coinciding handles
+            emit(out, l(vec![a(textid), a(len as i64), pairs_sx(&ks), refs_sx(false, &refs), ropsx.clone(), a(1)]), "adaptor_two_resources");
+        }
         let sorted = refs.len() > 1 && rng.chance(1, 2);
         emit(out, l(vec![a(textid), a(len as i64), pairs_sx(&ks), refs_sx(sorted, &refs), ropsx.clone()]), if refs.len() > 1 { "random_ref_set" } else { "random_single_ref" });
     }
 }
 
-pub const RULE: &str = "exhaustive: every set of <=2 (thorough <=3) known selections over positions 0..=5 of a 5-codepoint text, <=2 over 0..=6, <=3 over 0..=4 (nested, crossing, adjacent, zero-width, touching the end, both halves), every single reference range (bound when it coincides with a known selection), every operator x all x negate x limit {None,0,1,2} x allow_whitespace, through ResultTextSelection::related_text; random: up to 8 known selections on texts of 4..24 codepoints (one family with whitespace runs longer than the limit), reference sets of 1..3 members sorted/unsorted through ResultTextSelectionSet::related_text. One evaluation = one search; results compared as sorted handle lists (duplicates visible). Non-trivial = some operator returned a non-empty result; distinct = distinct request lines.";
+pub const RULE: &str = "exhaustive: every set of <=2 (thorough <=3) known selections over positions 0..=5 of a 5-codepoint text, <=2 over 0..=6, <=3 over 0..=4 (nested, crossing, adjacent, zero-width, touching the end, both halves), every single reference range (bound when it coincides with a known selection), every operator x all x negate x limit {None,0,1,2} x allow_whitespace, through ResultTextSelection::related_text; random: up to 8 known selections on texts of 4..24 codepoints (one family with whitespace runs longer than the limit), reference sets of 1..3 members sorted/unsorted through ResultTextSelectionSet::related_text; a fifth of the random requests once more through the iterator adaptor TextSelectionIterator::related_text over two resources with the same text and the same known selections under the same handle numbers (each reference taken in both). One evaluation = one search; results compared as sorted handle lists (duplicates visible). Non-trivial = some operator returned a non-empty result; distinct = distinct request lines.";
 
 pub const EXHAUSTIVE: bool = true;
